@@ -2,6 +2,8 @@
 import sys, json, glob
 grp, pids, style = sys.argv[1], sys.argv[2].split(','), sys.argv[3]
 STYLES = {
+ 'conc': "CONCURRENCY: the change must be invisible in any single-threaded use and show only under a specific interleaving of goroutines - a window of a few statements between a lock release and a notification, a check made before instead of after acquiring a lock, a flag read outside the critical section, a wake-up that can be missed, a goroutine that is not waited for, a channel operation that can block forever when the other side has already left, state published before it is complete, an unlock on one path only. The existing tests must keep passing (also with -race where they can run with it).",
+ 'numeric': "NUMERIC BOUNDARY: the change must be invisible for ordinary values and show only at an exact boundary or for an extreme value - a comparison that differs only when two quantities are equal, rounding that differs only at an exact tie or for negative values, integer truncation vs floor for negative numbers, an overflow or wrap-around that needs very large values, a unit conversion that loses precision only for certain clock rates, an off-by-one that matters only when a count is exactly a limit, a duration that is exactly a multiple of something.",
  'config': "UNUSUAL BUT LEGAL CONFIGURATION OR INPUT: the change must be invisible for the common configurations and inputs (H264 + stereo AAC at 44.1/48 kHz, default muxer settings, 1-2 s segments, plain relative URIs, ASCII names) and show only for a legal but uncommon one - e.g. other sample rates or channel counts, Opus, VP9/AV1/H265, very small or very large SegmentCount / SegmentMinDuration / PartMinDuration / SegmentMaxSize, several audio tracks, audio-only or video-only, unusual clock rates, very large or negative timestamps, long or non-ASCII names and languages, unusual playlist attributes, odd URI forms, big payloads.",
  'errorpath': "BEHAVIOUR AFTER AN ERROR OR ON A RARELY TAKEN BRANCH: the change must be invisible as long as every call succeeds and show only after (or while) something went wrong or something rare happened - a Write that returned an error, a storage failure, an HTTP error or a cancelled request, a request for something that has just expired, a rejected unit, a parameter change, a rotation forced by a limit, Close in the middle of something, a decode error that is skipped.",
  'cross': "INTERACTION OF TWO FEATURES: the change must be invisible when each feature is used alone and show only when two are combined - e.g. Directory storage x Low-Latency parts, delta updates x gaps, parameter change x part rotation, audio renditions x timestamp wrap, byte ranges x rendition playlists, blocking reload x Close, several renditions x end of stream, frame reordering x segment cuts, preload hints x window sliding.",
@@ -16,7 +18,7 @@ for f in sorted(glob.glob('/verif/seeded/*/meta.json')):
     m = json.load(open(f))
     if (m.get('property') or '')[:3] in pids:
         tried.append('- ' + (m.get('summary') or '')[:160].replace('\n', ' '))
-out = 'out5'
+out = sys.argv[4] if len(sys.argv) > 4 else 'out5'
 print(f"""You are a software engineer helping to evaluate a verification effort by producing realistic, subtle regressions of a Go library. You work ONLY in the git worktree /tmp/seed-{grp} (a scratch checkout of the library github.com/bluenviron/gohlslib/v2, an HLS client/muxer library). Do not look at or touch anything outside that directory (in particular never read /verif or /work or /repo). Every shell call needs: export GOFLAGS=-mod=mod GOPROXY=off GOSUMDB=off GOTOOLCHAIN=local (there is no network; dependencies are in the module cache). IMPORTANT: never use `git stash` (the stash is shared between all checkouts of this repository and other engineers are working in parallel): to test without your change use `git apply -R <your patch file>` and `git apply` to re-apply it.
 
 Here are semantic properties the library is supposed to satisfy:
